@@ -50,6 +50,9 @@ func (p *Path) stub(fn *ssa.Function, args []Value) (Value, bool) {
 	if !ok {
 		r, ok = p.floatStub(name, args)
 	}
+	if !ok {
+		r, ok = p.fsStub(name, args)
+	}
 	if ok {
 		noteStub(name)
 	}
@@ -346,9 +349,18 @@ func (p *Path) stubByName(name string, fn *ssa.Function, args []Value) (Value, b
 		fail := p.freshVar("oswritefile_fails", SBool)
 		p.registerNondet(fmt.Sprintf("env:os.WriteFile#%d", len(p.effects)), fail)
 		p.effectFail = append(p.effectFail, fail)
+		fe := p.fsLookup(strArg(args[0]))
 		if p.branch(fail, "os.WriteFile-fails") {
+			// the file may have been created, truncated or partly written
+			p.fsFailed = true
+			p.ambient = true
+			fe.exists, fe.content = p.freshVar("fs_exists", SBool), p.freshVar("fs_partial", SStr)
 			return p.newErr(mkStr("os.WriteFile failed"), "os.WriteFile"), true
 		}
+		if fe.perm == nil {
+			fe.perm = args[2].(*Term)
+		}
+		fe.exists, fe.content = tTrue, strArg(args[1])
 		return nilErr, true
 	case "regexp.Compile":
 		pat := args[0].(*Term)
@@ -820,6 +832,18 @@ func mustRe(s string) *Re {
 func ufAxioms(u *Term) []*Term {
 	if strings.HasPrefix(u.Name, "fc:") {
 		return []*Term{mkPrefixOf(mkStr("("), u), mkSuffixOf(mkStr("i)"), u)}
+	}
+	if u.Name == "ext:strings.Index" && len(u.Args) == 2 {
+		// contract of strings.Index: -1 iff absent, otherwise the position of the first occurrence
+		str, sep := u.Args[0], u.Args[1]
+		n := mkLen(sep)
+		return []*Term{
+			mkLe(mkInt(-1), u),
+			mkLe(mkAdd(u, n), mkLen(str)),
+			mkEq(mkEq(u, mkInt(-1)), mkNot(mkContains(str, sep))),
+			mkImplies(mkLe(mkInt(0), u), mkEq(mkSubstr(str, u, n), sep)),
+			mkImplies(mkAnd(mkLe(mkInt(0), u), mkLe(mkInt(1), n)), mkNot(mkContains(mkSubstr(str, mkInt(0), mkAdd(u, mkSub(n, mkInt(1)))), sep))),
+		}
 	}
 	switch u.Name {
 	case "goquote":
